@@ -82,12 +82,29 @@ fn build(c: &Canon) -> RecordBuf {
     if let Some(q) = c.qual {
         b = b.set_quality_score(f32::from_bits(q));
     }
+    let clear_pos = c.pos == 0;
     if !c.samples.is_empty() || !c.keys.is_empty() {
         let keys: Keys = c.keys.iter().cloned().collect();
         let rows = c.samples.iter().map(|r| r.iter().map(|v| v.as_ref().map(to_bsmp)).collect()).collect();
         b = b.set_samples(BSamples::new(keys, rows));
     }
-    b.build()
+    let mut rb = b.build();
+    if clear_pos {
+        *rb.variant_start_mut() = None; // the builder's default is Position::MIN
+    }
+    rb
+}
+
+/// the input class of the known lazy-reader panic: INFO ends with CR, then TAB, then the LF
+fn info_cr_empty_rest(text: &[u8]) -> bool {
+    let Some(i) = text.iter().position(|&b| b == b'\n') else { return false };
+    let line = &text[..i];
+    let ps: Vec<&[u8]> = line.split(|&b| b == b'\t').collect();
+    (ps.len() == 9 && ps[8].is_empty() && ps[..8].concat().ends_with(b"\r")) || (ps.len() == 8 && ps[7].is_empty() && ps[..7].concat().ends_with(b"\r"))
+}
+
+fn lazy_panic_tag(text: &[u8]) -> &'static str {
+    if info_cr_empty_rest(text) { "lazy-record-cr-before-empty-last-column-panic" } else { "line-reader-panic-lazy" }
 }
 
 fn defs3(s: &str) -> Vec<(String, String, String)> {
@@ -174,8 +191,11 @@ pub fn run_line(c: &Case) -> Obs {
     let text = format!("{line}\n");
     let e = eager_text(&header, text.as_bytes());
     let l = lazy_text(&header, text.as_bytes());
-    if matches!(e, R::Panic) || matches!(l, R::Panic) {
-        return Obs::fail("Panic", "line-reader-panic", &line);
+    if matches!(e, R::Panic) {
+        return Obs::fail("Panic", "line-reader-panic-eager", &line);
+    }
+    if matches!(l, R::Panic) {
+        return Obs::fail("Panic", lazy_panic_tag(text.as_bytes()), &line);
     }
     let (es, se, ec) = match &e {
         R::Ok(rb2) => { let cn = canon(rb2); (rec_str(&cn), span_of_pub(&header, rb2), Some(cn)) }
@@ -215,8 +235,8 @@ pub fn run_ltxt(c: &Case) -> Obs {
     let text = unhex(&c.args[4]);
     let e = eager_text(&header, &text);
     let l = lazy_text(&header, &text);
-    if matches!(e, R::Panic) || matches!(l, R::Panic) {
-        return Obs::fail("Panic", "ltxt-reader-panic", &c.args[4]);
+    if matches!(e, R::Panic) {
+        return Obs::fail("Panic", "ltxt-reader-panic-eager", &c.args[4]);
     }
     let es = match &e {
         R::Ok(rb) => format!("{}/{}", rec_str(&canon(rb)), span_of_pub(&header, rb)),
@@ -224,8 +244,12 @@ pub fn run_ltxt(c: &Case) -> Obs {
     };
     let ls = match &l {
         R::Ok((rec, cn)) => format!("{}/{}", rec_str(cn), span_of_pub(&header, rec)),
+        R::Panic => "Panic".to_string(),
         _ => "Err".to_string(),
     };
+    if matches!(l, R::Panic) {
+        return Obs::fail(format!("{es}|{ls}"), lazy_panic_tag(&text), &c.args[4]);
+    }
     Obs::ok(format!("{es}|{ls}"), true)
 }
 
@@ -371,7 +395,16 @@ pub fn gen_line(rng: &mut Rng, ver: &str, mode: u64, w: &mut CaseWriter) {
                 2 => c.refb = rng.pick(REFS_EDGE).to_string(),
                 3 => c.alts = { let mut v = distinct(rng, 1, ALTS_EDGE); if rng.chance(1, 2) { v.push(rng.pick(ALTS_OK).to_string()); } v },
                 4 => c.filters = { let mut v = distinct(rng, 1, FILTERS_EDGE); if rng.chance(1, 2) { v.extend(distinct(rng, 1, FILTERS_OK)); } v },
-                5 => c.info.push((rng.pick(&["1000G", "9x", "a-b", "", ".", "a=b", "k;l", "_ok", "x.y", "\u{e9}"]).to_string(), if rng.chance(1, 2) { Some(V::Flag) } else { Some(V::Str("v".into())) })),
+                5 => {
+                    let k = rng.pick(&["1000G", "9x", "a-b", "", ".", "a=b", "k;l", "_ok", "x.y", "\u{e9}"]).to_string();
+                    if k == "1000G" {
+                        // reserved: Number=0, Type=Flag (the model is given the effective definitions)
+                        infos.push(("1000G".into(), "0".into(), "B".into()));
+                        c.info.push((k, if rng.chance(1, 4) { None } else { Some(V::Flag) }));
+                    } else {
+                        c.info.push((k, if rng.chance(1, 2) { Some(V::Flag) } else { Some(V::Str("v".into())) }));
+                    }
+                }
                 6 => {
                     // GT not first / invalid or unusual FORMAT keys
                     if !c.samples.is_empty() {
@@ -382,14 +415,14 @@ pub fn gen_line(rng: &mut Rng, ver: &str, mode: u64, w: &mut CaseWriter) {
                         }
                     }
                 }
-                7 => { for r in c.samples.iter_mut() { r.push(Some(V::Int(7))); r.push(None); } }   // rows longer than the keys
+                7 => { let nk = c.keys.len(); for r in c.samples.iter_mut() { while r.len() < nk { r.push(None); } r.push(Some(V::Int(7))); r.push(None); } }   // rows longer than the keys
                 8 => c.keys.clear(),                                                                    // samples without FORMAT keys
-                9 => ns_hdr = if nsamples == 0 { 1 } else { nsamples + 1 - 2 * (rng.below(2) as usize).min(nsamples) },
+                9 => ns_hdr = if nsamples == 0 { 1 } else if rng.chance(1, 2) { nsamples + 1 } else { nsamples - 1 },
                 10 => { if let Some(r) = c.samples.first_mut() { r.clear(); r.push(Some(V::Str(String::new()))); } }
                 11 => c.samples.clear(),                                                                 // keys but no samples
                 12 => { if let Some(r) = c.samples.first_mut() { *r = vec![None]; } }
                 13 => c.info.push(("I0".into(), Some(V::Str("mistyped".into())))),
-                14 => { c.info.retain(|(k, _)| k != "END"); c.info.push(("END".into(), Some(V::Int(rng.range(0, 40) as i32 - 5)))); }
+                14 => { if !infos.iter().any(|(k, _, _)| k == "END") { infos.push(("END".into(), "1".into(), "I".into())); } c.info.retain(|(k, _)| k != "END"); c.info.push(("END".into(), Some(V::Int(rng.range(0, 40) as i32 - 5)))); }
                 _ => c.qual = Some(*rng.pick(&[0x7fc0_0000u32, 0xffc0_0000, 0x7f80_0000, 0xff80_0000, 0, 0x8000_0000])),
             }
         }
@@ -461,6 +494,20 @@ const LTXT_LINES: &[&str] = &[
     "sq0\t5\t.\tA\t.\t.\t.\t.\tGT\t0/1\t0|1\r\n",
     "sq0\t5\t.\tA\t.\t.\t.\t.\tGT\t0/1\t0|1\r\r\n",
     "sq0\t5\t.\tA\t.\t.\t.\tu1=a\rb\tGT\t0/1\t0|1\n",
+    // the known lazy-record panic class: INFO ends with CR, then TAB, then LF
+    "sq0\t1\t.\tA\t.\t.\t.\t.\r\t\n",
+    "sq0\t1\t.\tA\t.\t.\t.\tu1\r\t\n",
+    "sq0\t1\t.\tA\t.\t.\t.\tu1\r\t\r\n",
+    "sq0\tx\t.\tA\t.\t.\t.\tu1\r\t\n",
+    "sq0\t1\t.\tA\t.\t.\tq\r\t\n",
+    "sq0\t1\t.\tA\t.\t.\tq\r\t\r\n",
+    "sq0\t1\t.\tA\t.\t.\r\t\t\n",
+    "sq0\t1\t.\tA\t.\tzz\r\t\t\n",
+    "sq0\tx\t.\tA\r\t\t\t\t\n",
+    "sq0\t1\r\t\t\t\t\t\t\n",
+    "sq0\r\t\t\t\t\t\t\t\n",
+    "\r\t\t\t\t\t\t\t\n",
+    "sq0\t1\t.\tA\t.\tzz\tq\r\t\n",
 ];
 
 fn qual_ftab(text: &[u8]) -> String {
@@ -499,6 +546,9 @@ pub fn gen_ltxt(rng: &mut Rng, w: &mut CaseWriter, n_mut: usize) {
                 2 => t[i] = *rng.pick(b"\t;:=,./|.0%"),
                 _ => t.insert(i, *rng.pick(b"\t;:=,./|.0%\r")),
             }
+        }
+        if !t.contains(&b'\n') {
+            t.push(b'\n'); // a last line without LF and with fewer than eight columns is not modelled
         }
         let ver = *rng.pick(VERS);
         let ns = *rng.pick(&[0usize, 1, 2, 2, 3]);
